@@ -14,6 +14,8 @@ class ModelProc:
                                   stdin=subprocess.PIPE, stdout=subprocess.PIPE, bufsize=0, env=env)
         self.rf = os.fdopen(self.p.stdout.fileno(), "rb", buffering=1 << 16, closefd=False)
         self.hash_queries = 0
+        self.transcript = None          # when a list: (line sent, first answer line, extra lines); and .queries: (algo, hex in, hex out)
+        self.queries = []
 
     def _send(self, line: str):
         self.p.stdin.write(line.encode() + b"\n")
@@ -29,12 +31,17 @@ class ModelProc:
             if l.startswith("?"):
                 algo, hx = l[1:].split(" ") if " " in l else (l[1:], "")
                 self.hash_queries += 1
-                self._send(hashes.digest(algo, bytes.fromhex(hx)).hex())
+                dg = hashes.digest(algo, bytes.fromhex(hx)).hex()
+                if self.transcript is not None:
+                    self.queries.append((algo, hx, dg))
+                self._send(dg)
                 continue
             assert l.startswith("= "), l
             k = int(l[2:])
             first = self.rf.readline().rstrip(b"\n").decode()
             extra = [self.rf.readline().rstrip(b"\n").decode() for _ in range(k)]
+            if self.transcript is not None:
+                self.transcript.append((line, first, extra))
             return first, extra
 
     def reset(self):
